@@ -61,6 +61,7 @@ type Program struct {
 	audits        []map[string]interface{}
 	selftest      []map[string]interface{}
 	benign        []map[string]interface{}
+	engineTest    *engineResult
 	groundDone    bool
 	groundObls    []*Obligation
 	listFacts     map[string]bool
